@@ -37,6 +37,12 @@ fn gen_case(rng: &mut Rng, big_ok: bool) -> Vec<String> {
     let n = 8 + rng.usize(if c > 1000 { 6 } else { 14 });
     let mut ops = vec![first];
     let mut ntok = 0u64; // estimate of the number of tokens seen so far
+    for k in &keys {
+        if rng.chance(2, 3) {
+            ntok += 1;
+            ops.push(format!("put {k} ow {} {}", *rng.pick(&[0, 1, c.saturating_sub(1), c, c + 1, 2 * c, 3 * c + 1, 5]), rng.below(50)));
+        }
+    }
     let size = |rng: &mut Rng| -> u64 {
         let cands = [0, 1, c.saturating_sub(1), c, c + 1, 2 * c, 2 * c + 1, 3 * c, rng.below(40)];
         *rng.pick(&cands)
@@ -139,6 +145,34 @@ fn gen_case(rng: &mut Rng, big_ok: bool) -> Vec<String> {
 // running one case
 // ------------------------------------------------------------------------------------------
 
+fn cbor_uint(major: u8, n: u64, out: &mut Vec<u8>) {
+    let m = major << 5;
+    if n < 24 {
+        out.push(m | n as u8);
+    } else if n < 256 {
+        out.push(m | 24);
+        out.push(n as u8);
+    } else if n < 65536 {
+        out.push(m | 25);
+        out.extend_from_slice(&(n as u16).to_be_bytes());
+    } else {
+        out.push(m | 26);
+        out.extend_from_slice(&(n as u32).to_be_bytes());
+    }
+}
+
+/// pre-0.10 MetaStore metadata: `{ "s": size, "e": e_tag, "o": null, "v": null }`
+fn legacy_meta_doc(size: u64, etag: &str) -> Vec<u8> {
+    let mut o = vec![0xa4];
+    o.extend_from_slice(&[0x61, b's']);
+    cbor_uint(0, size, &mut o);
+    o.extend_from_slice(&[0x61, b'e']);
+    cbor_uint(3, etag.len() as u64, &mut o);
+    o.extend_from_slice(etag.as_bytes());
+    o.extend_from_slice(&[0x61, b'o', 0xf6, 0x61, b'v', 0xf6]);
+    o
+}
+
 #[derive(Default, Clone)]
 struct Failure {
     key: String,
@@ -219,6 +253,7 @@ async fn run_case(ops: &[String]) -> Result<CaseOut, String> {
     let mut latest: BTreeMap<String, String> = BTreeMap::new();
     let mut issued: BTreeSet<String> = BTreeSet::new();
     let mut views: HashMap<String, (u64, i64)> = HashMap::new();
+    let mut legacy_keys: BTreeSet<String> = BTreeSet::new();
     let mut last_ms = 0i64;
     let (mut commits, mut reads) = (0, 0);
     for (i, op) in ops.iter().enumerate().skip(1) {
@@ -228,6 +263,30 @@ async fn run_case(ops: &[String]) -> Result<CaseOut, String> {
             out.wrapper.push("ok".into());
             out.reference.push("ok".into());
             out.hits.push("op:reopen".into());
+            continue;
+        }
+        if let ["legacy", k, size, seed] = w.as_slice() {
+            // a pre-0.10 object written straight into the backend (MetaStore layout), wrapper re-opened;
+            // not an object of the reference store: the comparison with InMemory stops here
+            if !matches!(fl, Flavor::Meta) {
+                return Err("legacy objects are only built for MetaStore".into());
+            }
+            use object_store::{ObjectStoreExt, PutPayload, path::Path};
+            let data = gen_bytes(seed.parse().map_err(|_| "seed")?, size.parse().map_err(|_| "size")?);
+            let p = key_path(k).ok_or("key")?;
+            wait_past(last_ms);
+            wr.backend.put(&Path::from(format!("data/{p}")), PutPayload::from(data.clone())).await.map_err(|e| e.to_string())?;
+            wait_past(chrono::Utc::now().timestamp_millis());
+            wr.backend.put(&Path::from(format!("meta/{p}")), PutPayload::from(legacy_meta_doc(data.len() as u64, &format!("legacy-{}", fnv(&data))))).await.map_err(|e| e.to_string())?;
+            last_ms = chrono::Utc::now().timestamp_millis();
+            wr.reopen();
+            let _ = rf.exec(&format!("put {k} ow {size} {seed}")).await;
+            out.noref_from = out.noref_from.min(i + 1);
+            legacy_keys.insert(k.to_string());
+            latest.insert(k.to_string(), format!("legacy-{}", fnv(&data)));
+            out.wrapper.push("ok".into());
+            out.reference.push("ok".into());
+            out.hits.push("op:legacy".into());
             continue;
         }
         if op == "noref" {
@@ -282,6 +341,13 @@ async fn run_case(ops: &[String]) -> Result<CaseOut, String> {
         };
         if let ["del", k] = w.as_slice() && ok {
             latest.remove(*k);
+            legacy_keys.remove(*k);
+        }
+        if let Some(k) = committed {
+            legacy_keys.remove(k);
+        }
+        if let ["ren", s, d, _] = w.as_slice() && ok && s != d {
+            legacy_keys.remove(*s);
         }
         if let ["ren", s, d, _] = w.as_slice() && ok && s != d {
             latest.remove(*s);
@@ -308,11 +374,29 @@ async fn run_case(ops: &[String]) -> Result<CaseOut, String> {
             if let Some(t) = &m.tok {
                 let v = views.entry(t.clone()).or_insert((m.size, m.micros));
                 if *v != (m.size, m.micros) {
-                    out.failures.push(Failure { key: "one-view-per-commit".into(), what: format!("{op}: token reported with a different size/time than before"), expected: format!("{v:?}"), observed: format!("{:?}", (m.size, m.micros)), at: i });
+                    out.failures.push(Failure { key: if legacy_keys.contains(&m.key) { "legacy-listing-timestamp".into() } else { "one-view-per-commit".into() }, what: format!("{op}: the same commit (same token) is reported with a different size / last_modified than in an earlier answer"), expected: format!("size={} last_modified=+0us", v.0), observed: format!("size={} last_modified={:+}us", m.size, m.micros - v.1), at: i });
                 }
                 if latest.get(&m.key) != Some(t) {
                     out.failures.push(Failure { key: "stale-token-served".into(), what: format!("{op}: answer carries a token that is not the key's latest commit"), expected: format!("{:?}", latest.get(&m.key)), observed: t.clone(), at: i });
                 }
+            }
+        }
+        // a known shape whose answers agree but whose states part: compare a probe read
+        if let Some(f) = out.failures.iter().rev().find(|f| f.at == i && f.key == "?self-rename-overwrite") {
+            let _ = f;
+            let k = w[1];
+            let kp = key_path(k).unwrap();
+            let show = |r: object_store::Result<object_store::ObjectMeta>| match r { Ok(_) => "ok".to_string(), Err(e) => err_kind(&e) };
+            let pa = show(build_store(fl, wr.backend.clone()).head(&kp).await);
+            let pb = show(rf.store.head(&kp).await);
+            if pa.starts_with("ok") != pb.starts_with("ok") {
+                out.failures.push(Failure {
+                    key: "self-rename-overwrite".into(),
+                    what: format!("after `{op}` the wrapper still holds {k} (self-rename is a checked no-op), InMemory (default rename = copy + delete) has lost it"),
+                    expected: format!("head {k}: {}", pb.split(' ').next().unwrap_or("")),
+                    observed: format!("head {k}: {}", pa.split(' ').next().unwrap_or("")),
+                    at: i,
+                });
             }
         }
         out.wrapper.push(a.line);
@@ -320,8 +404,11 @@ async fn run_case(ops: &[String]) -> Result<CaseOut, String> {
     }
     out.nontrivial = commits > 0 && reads > 0;
     // wrapper vs reference
-    let wc = rank_times(&out.wrapper);
-    let rc = rank_times(&out.reference);
+    // timestamps are ranked over the compared part only (after a state-diverging known shape the
+    // two stores legitimately hold different objects)
+    let limit = out.noref_from.min(out.wrapper.len());
+    let wc = rank_times(&out.wrapper[..limit]);
+    let rc = rank_times(&out.reference[..limit]);
     let mut fails = vec![];
     let mut known_at: HashMap<usize, String> = HashMap::new();
     for f in out.failures.drain(..) {
@@ -331,10 +418,7 @@ async fn run_case(ops: &[String]) -> Result<CaseOut, String> {
             fails.push(f);
         }
     }
-    for i in 1..ops.len().min(wc.len()) {
-        if i >= out.noref_from && !known_at.contains_key(&i) {
-            break;
-        }
+    for i in 1..limit {
         if wc[i] != rc[i] {
             let kind = |s: &str| if s.starts_with("ok") { "ok".to_string() } else { s.split(' ').next().unwrap_or("").to_string() };
             let key = known_at.get(&i).cloned().unwrap_or_else(|| format!("{}:{}-vs-{}", ops[i].split(' ').next().unwrap_or(""), kind(&wc[i]), kind(&rc[i])));
@@ -396,6 +480,62 @@ fn first_disagreement(ops: &[String], r: &CaseResult) -> Option<(String, String,
     None
 }
 
+/// Concurrent callers on one key (real tasks on a multi-thread runtime; measured): `n` tasks issue the
+/// same conditional update (resp. create) at once — exactly one may win, the key must hold the
+/// winner's bytes, every loser must see Precondition (resp. AlreadyExists).
+async fn cas_race(fl: Flavor, seed: u64, rounds: u64) -> (u64, Option<String>) {
+    use object_store::{ObjectStoreExt, PutMode, PutOptions, PutPayload, UpdateVersion};
+    let su = Sut::new(fl);
+    let mut done = 0;
+    for r in 0..rounds {
+        let key = key_path(["0", "0/1", "2/2/2"][(r % 3) as usize]).unwrap();
+        let create = r % 4 == 3;
+        let tok = if create {
+            let _ = su.store.delete(&key).await;
+            None
+        } else {
+            match su.store.put(&key, PutPayload::from(gen_bytes(seed + r, 9))).await {
+                Ok(p) => p.e_tag,
+                Err(e) => return (done, Some(format!("setup put: {}", err_kind(&e)))),
+            }
+        };
+        let mut hs = vec![];
+        for t in 0..4u64 {
+            let s = su.store.clone();
+            let key = key.clone();
+            let tok = tok.clone();
+            hs.push(tokio::spawn(async move {
+                let mode = if create { PutMode::Create } else { PutMode::Update(UpdateVersion { e_tag: tok, version: None }) };
+                let data = gen_bytes(1000 + seed + r * 7 + t, 5 + t as usize);
+                (t, s.put_opts(&key, PutPayload::from(data), PutOptions { mode, ..Default::default() }).await.map_err(|e| err_kind(&e)))
+            }));
+        }
+        let mut winners = vec![];
+        for h in hs {
+            match h.await {
+                Ok((t, Ok(_))) => winners.push(t),
+                Ok((_, Err(k))) if k == "err:precond" || k == "err:exists" => {}
+                Ok((t, Err(k))) => return (done, Some(format!("round {r} caller {t}: unexpected {k}"))),
+                Err(_) => return (done, Some("caller task panicked".into())),
+            }
+        }
+        if winners.len() != 1 {
+            return (done, Some(format!("round {r} ({}): {} callers succeeded with the same token: {winners:?}", if create { "create" } else { "update" }, winners.len())));
+        }
+        let want = gen_bytes(1000 + seed + r * 7 + winners[0], 5 + winners[0] as usize);
+        match build_store(fl, su.backend.clone()).get(&key).await {
+            Ok(g) => match g.bytes().await {
+                Ok(b) if b.as_ref() == want.as_slice() => {}
+                Ok(b) => return (done, Some(format!("round {r}: key holds {} bytes, the winner wrote {}", b.len(), want.len()))),
+                Err(e) => return (done, Some(format!("round {r}: body {}", err_kind(&e)))),
+            },
+            Err(e) => return (done, Some(format!("round {r}: get {}", err_kind(&e)))),
+        }
+        done += 1;
+    }
+    (done, None)
+}
+
 fn main() {
     let args = Args::parse();
     let mut rep = Report::new(
@@ -414,7 +554,7 @@ fn main() {
         if let Some(dir) = &args.corpus {
             cases.extend(read_corpus(dir));
         }
-        let n = args.budget(1600, 60000);
+        let n = args.budget(1600, 180000);
         for i in 0..n {
             let mut rng = Rng::for_case(args.seed, i);
             cases.push((format!("gen{i}"), gen_case(&mut rng, true)));
@@ -482,6 +622,9 @@ fn main() {
             }
             // shrink: the same key must still be reported
             let prefix: Vec<String> = ops[..=f.at.min(ops.len() - 1)].to_vec();
+            if std::env::var("VH_DEBUG").is_ok() {
+                eprintln!("FAILURE {} at {} in {:?}\n  wrapper={:?}\n  reference={:?}", f.key, f.at, ops, rank_times(&out.wrapper), rank_times(&out.reference));
+            }
             let key = f.key.clone();
             let small = shrink(
                 prefix[1..].to_vec(),
@@ -527,6 +670,19 @@ fn main() {
                 }
             }
         }
+    }
+    if args.replay.is_none() {
+        let mt = tokio::runtime::Builder::new_multi_thread().worker_threads(4).enable_all().build().unwrap();
+        let rounds = args.budget(150, 6000);
+        let mut total = 0;
+        for (j, fl) in [Flavor::Meta, Flavor::Enc(7)].iter().enumerate() {
+            let (n, bad) = mt.block_on(cas_race(*fl, args.seed + j as u64, rounds));
+            total += n;
+            if let Some(b) = bad {
+                rep.oracle_failure("cas-race", "concurrent callers with the same token (or concurrent creates) on one key: not exactly one winner / wrong final bytes", &[format!("cas_race flavor={fl:?} seed={} rounds={rounds}", args.seed + j as u64)], "exactly one winner whose bytes the key holds", &b);
+            }
+        }
+        rep.measured.insert("cas_race".into(), json!({"rounds_ok": total, "what": "4 real tasks (4-thread runtime) issue the same PutMode::Update token / PutMode::Create on one key at once; exactly one must win. Real scheduling: measured, not proved (the model has one caller; the per-key critical section is an assumption)."}));
     }
     rep.notes.push(format!("{ncorpus} corpus case(s) run first; {} worker threads", nthreads));
     rep.measured.insert("timestamps".into(), json!("commit times are separated by >= 3 ms of wall clock by the harness; compared by rank only"));
